@@ -44,7 +44,9 @@ def list_case(cid, b):
     names = [key_name(k) for k in b["keys"]]
     back = {key_name(k): k["n"] for k in b["keys"]}
     out = []
-    hows = [("prefix", dict(prefix="run1/"))] if b["prefixGiven"] else [("empty", dict(prefix="")), ("none", dict())]
+    pk = b.get("prefixKey", 0)
+    hows = [("key", dict(prefix=names[pk - 1]))] if pk else \
+        [("prefix", dict(prefix="run1/"))] if b["prefixGiven"] else [("empty", dict(prefix="")), ("none", dict())]
     for how, kw in hows:
         for sfx in ("default", "explicit"):
             fake = ListingFake(names, b["size"])
@@ -53,7 +55,7 @@ def list_case(cid, b):
             args = dict(kw)
             if sfx == "explicit":
                 args["suffix"] = ".mos.xml"
-            ev = {"id": "%s.%s.%s" % (cid, how, sfx), "k": "list", "keys": b["keys"], "prefixGiven": b["prefixGiven"],
+            ev = {"id": "%s.%s.%s" % (cid, how, sfx), "k": "list", "keys": b["keys"], "prefixGiven": b["prefixGiven"], "prefixKey": pk,
                   "size": b["size"], "how": how + "/" + sfx, "result": [], "raised": "~", "what": "", "outcomes": []}
             try:
                 res = s3mod.get_mos_files("bkt", **args)
@@ -103,7 +105,7 @@ def load_case(cid, what, text, tmproot, encoding="utf-8"):
         rec("reader-s3", lambda: MosReader.from_s3("bkt", "k/doc.mos.xml").mos_object)
     finally:
         shutil.rmtree(d, ignore_errors=True)
-    return {"id": cid, "k": "load", "what": what + "/" + encoding, "outcomes": outs, "keys": [], "prefixGiven": False, "size": 1,
+    return {"id": cid, "k": "load", "what": what + "/" + encoding, "outcomes": outs, "keys": [], "prefixGiven": False, "prefixKey": 0, "size": 1,
             "how": "", "result": [], "raised": "~"}
 
 
@@ -117,6 +119,14 @@ def run(report, tier, seed):
     events = []
     for i, b in enumerate(buckets):
         events += list_case("b%d" % i, b)
+    # listings beyond the enumeration (two- to four-digit key counts, the service's real page size), judged by the same
+    # trace specification
+    for j, (nk, size) in enumerate([(12, 5), (25, 10), (101, 100), (1005, 1000)] if tier == "quick" else
+                                   [(12, 5), (25, 10), (64, 7), (101, 100), (1005, 1000), (2500, 1000)]):
+        keys = [{"under": i % 5 != 0, "suf": ("end", "end", "mid", "end", "none")[i % 5 if i % 7 else 3], "n": i}
+                for i in range(1, nk + 1)]
+        for given, pk in ((True, 0), (False, 0), (True, nk - 1)):
+            events += list_case("big%d.%d%d" % (j, given, pk), {"keys": keys, "prefixGiven": given, "prefixKey": pk, "size": size})
     tmproot = tlc.workdir("src-tmp-" + report.prop)
     n = 0
     from .cli import class_message
